@@ -234,11 +234,38 @@ def judge_writer(case, part):
         part.fail("writer|table-does-not-read-back", case, expected, rows)
 
 
+def judge_layout(case, part):
+    """A sheet in which only the non-empty cells are stored (what office suites write): rows without any stored cell, rows
+    that end early and rows that start late all come back padded to the sheet's width; trailing empty rows do not exist."""
+    table = case["table"]
+    path = path_for("layout")
+    workbook = harness.new_workbook(path)
+    sheet = workbook.add_worksheet()
+    for y, row in enumerate(table):
+        for x, cell in enumerate(row):
+            if cell != "":
+                sheet.write_string(y, x, cell)
+    workbook.close()
+    part.evaluations += 1
+    part.nontrivial += 1
+    width = max([max([x + 1 for x, cell in enumerate(row) if cell != ""] or [0]) for row in table] or [0])
+    height = max([y + 1 for y, row in enumerate(table) if any(cell != "" for cell in row)] or [0])
+    expected = [[(row[x] if x < len(row) else "") for x in range(width)] for row in table[:height]]
+    outcome, rows = read_rows(path)
+    part.transitions += 1
+    part.validated += 1
+    part.outcome("layout:" + outcome)
+    if (rows if outcome == "rows" else outcome) != expected:
+        part.fail("layout|rows-not-padded-to-the-sheet-width", case, expected, rows if outcome == "rows" else [outcome, rows])
+
+
 def misc_job(item):
     part = Part()
     for case in item:
         if case["group"] == "sheets":
             judge_sheets(case, part)
+        elif case["group"] == "layout":
+            judge_layout(case, part)
         else:
             judge_writer(case, part)
     part.sample(item[0], limit=1)
@@ -310,10 +337,17 @@ def run(ctx):
     tables = [t for t in c15.STRUCTURED if t and all(len(r) for r in t)] + c15.small_tables(c15.SMALL, [(1, 1), (1, 2), (2, 2)] if quick else [(1, 1), (1, 2), (2, 2), (2, 3)])
     for index, table in enumerate(tables):
         misc.append({"group": "writer", "table": table, "api": "write_rows" if index % 2 else "write_row", "cells": []})
+    # sparse sheets: every table of up to 4 rows x 3 columns over {empty, 'a'} (quick: up to 3 x 3), cells stored only where not empty
+    layouts = 0
+    for height in range(1, 4 if quick else 5):
+        for flat in itertools.product(("", "a"), repeat=height * 3):
+            table = [list(flat[r * 3:(r + 1) * 3]) for r in range(height)]
+            misc.append({"group": "layout", "table": table, "cells": []})
+            layouts += 1
     ctx.pmap(MOD, "misc_job", engine.chunks(misc, 40), label="C16 sheets+writer")
     ctx.bound = {"cells": {name: len(cells) for name, cells in jobs if name not in ("dates",)}, "date cells": sum(len(c) for n, c in jobs if n == "dates"),
                  "dates": "quick: days 1, 2, 28..31 of every month of 40 years between 1900 and 9999; thorough: every date 1900-03-01..9999-12-31", "times": "every %s second of a day" % ("61st" if quick else "single"),
-                 "sheets": "1..3 sheets x requested sheet 1..4 through excel_rows and the Sheet property", "writer round trip": "%d string tables through write_row / write_rows" % len(tables)}
+                 "sheets": "1..3 sheets x requested sheet 1..4 through excel_rows and the Sheet property", "writer round trip": "%d string tables through write_row / write_rows" % len(tables), "sparse sheets": "%d: every pattern of stored / missing cells in up to %d rows x 3 columns" % (layouts, 3 if quick else 4)}
     ctx.rule = ("every generated cell is written with xlsxwriter and read back through rowio.excel_rows; oracle: strings verbatim, whole numbers as digits, other numbers as a text t with float(t)==value and "
                 "len(t)<=len(repr(value)), booleans 1/0, dates 'YYYY-MM-DD hh:mm:ss', times 'hh:mm:ss', rows padded to the sheet width; non-trivial = every cell / sheet / table case")
     ctx.assumptions = ["a sheet written cell by cell does not store empty strings: the writer round trip is judged modulo trailing empty rows / columns", "dates before 1900-03-01 (Excel's leap-year bug) are outside the quantifier"]
